@@ -11,9 +11,10 @@ from mc import REPO_ROOT
 
 def mk_packet(data: bytes, *, version=0, type_=0, shflag=0, apid=1, seqflags=3, seqcount=0) -> bytes:
     """Independent CCSDS packet builder (string formatting, no shifts)."""
-    assert 1 <= len(data) <= 65536
+    # data beyond 65536 bytes: a "packet" as segment reassembly hands it to the decoder (the length field keeps the low 16 bits)
+    assert 1 <= len(data)
     bits = (format(version, "03b") + format(type_, "01b") + format(shflag, "01b") + format(apid, "011b")
-            + format(seqflags, "02b") + format(seqcount, "014b") + format(len(data) - 1, "016b"))
+            + format(seqflags, "02b") + format(seqcount, "014b") + format((len(data) - 1) & 0xFFFF, "016b"))
     assert len(bits) == 48
     return int(bits, 2).to_bytes(6, "big") + data
 
